@@ -40,6 +40,18 @@ class PolarizationState:
             self.Ex /= mag
             self.Ey /= mag
 
+    def to_dict(self):
+        """Dictionary form of the polarization state (JSON types only)."""
+        return {'is_polarized': self.is_polarized, 'Ex': self.Ex,
+                'Ey': self.Ey, 'phase_x': self.phase_x,
+                'phase_y': self.phase_y}
+
+    @classmethod
+    def from_dict(cls, data):
+        """Create a polarization state from its dictionary form."""
+        return cls(data['is_polarized'], data['Ex'], data['Ey'],
+                   data['phase_x'], data['phase_y'])
+
     def __str__(self):
         """
         Returns a string representation of the polarization state.
